@@ -547,7 +547,7 @@ func rt7(c *core.Ctx, p *core.Prog, onlyDefault bool) {
 
 func init() {
 	for _, prop := range []string{"C01", "C02", "C03"} {
-		register(prop, &core.Rule{ID: "RT.7", Title: "parent-id codec mirror: every sorter of the default configuration encodes what the decoder decodes", Mod: core.ModRoot, Floor: 8, Run: rt_7_default})
+		register(prop, &core.Rule{ID: "RT.7", Title: "parent-id codec mirror: every sorter of the default configuration encodes what the decoder decodes", Mod: core.ModRoot, Floor: 8, FloorBy: map[string]int{"C01": 8, "C02": 4, "C03": 8}, Run: rt_7_default})
 	}
 	register("C04", &core.Rule{ID: "C04.1", Title: "parent-id codec mirror: every sorter an option can select encodes what the decoder decodes", Mod: core.ModRoot, Floor: 14, Run: rt_7})
 }
